@@ -310,3 +310,78 @@ class BootFrame:
 class ReadStructFileFrame:
     properties = ("C20",)
     globals_unchanged = True
+
+
+# ---- MachineController.boot: the controller-level entry point ------------------------------------------------------------------------
+import z3 as _z3   # noqa: E402
+from pyvc.values import ExcV as _ExcV, TConst as _TConst20   # noqa: E402
+
+
+def _mcb_new_controller(E, args, kwargs, st, node):
+    s = st.copy()
+    s.trace = ListV(s.trace.items + (("controller_made",) + tuple(args) + tuple(sorted(kwargs.items())),))
+    return [(s, _ObjV("QuickFailController", {"ident": 11}))]
+
+
+def _mcb_quick_version(E, obj, args, kwargs, st, node):
+    from pyvc.engine import Raised
+    s = st.copy()
+    s.trace = ListV(s.trace.items + (("asked_quickly",) + tuple(args),))
+    ok = s.assume(_z3.Not(st.env["g_silent"]))
+    bad = s.assume(st.env["g_silent"])
+    return [(ok, _ObjV("CoreInfo", {"version_string": st.env["g_version_string"]}), None), (bad, Raised(_ExcV("SCPError", ())), None)]
+
+
+def _mcb_str_contains(E, obj, args, kwargs, st, node):
+    return [(st, st.env["g_is_spinnaker"], None)]
+
+
+def _mcb_boot(E, args, kwargs, st, node):
+    s = st.copy()
+    s.trace = ListV(s.trace.items + (("boot",) + tuple(args) + tuple(sorted(kwargs.items())),))
+    return [(s, _ObjV("Dict", {"ident": 22, "n": _z3.IntVal(3)}))]
+
+
+def _mcb_dict_len(E, obj, args, kwargs, st, node):
+    return [(st, obj.fields["n"], None)]
+
+
+def _mcb_dict_mutated(E, obj, args, kwargs, st, node):
+    s = st.copy()
+    s.trace = ListV(s.trace.items + (("dictionary_changed_in_place", obj.fields["ident"]),))
+    return [(s, _NONE, obj)]
+
+
+@contract("rig/machine_control/machine_controller.py::MachineController.boot")
+class ControllerBoot:
+    """with only_if_needed the machine is first asked - through a NEW controller for the same host that gives up after one try - and
+    left alone when something answers (an answer that is not SpiNNaker's is an error); otherwise (or when nothing answers) the
+    machine is booted from the controller's own host and boot port with exactly the options given, and the controller's struct
+    dictionary is REPLACED by the one that boot returns: the dictionary it held before - possibly the caller's, possibly shared with
+    other controllers - is not written to"""
+    properties = ("C20", "C17")
+    params = dict(self=TRec("MachineController", initial_host=TInt(), boot_port=TInt(1, 65535), structs=TRec("Dict", ident=TInt(0, 9), n=TInt(1, None))),
+                  only_if_needed=TBool(), check_booted=_TConst20(False), g_silent=TBool(), g_version_string=TRec("VersionString"), g_is_spinnaker=TBool(), g_led0=TInt())
+    externals = {"class:MachineController": _mcb_new_controller, "QuickFailController.get_software_version": _mcb_quick_version,
+                 "VersionString.__contains__": _mcb_str_contains, "def:boot": _mcb_boot, "Dict.__len__": _mcb_dict_len,
+                 "Dict.update": _mcb_dict_mutated, "Dict.__setitem__": _mcb_dict_mutated, "Dict.clear": _mcb_dict_mutated}
+    options = {"kwargs": {"led0": "g_led0"}}
+    assumptions = ["boot.boot (contract Boot) and the quick-fail controller are recorded; the struct dictionaries are opaque objects whose "
+                   "in-place changes (update, item assignment, clear) are recorded; check_booted=False (the wait loop polls the machine: C14)"]
+
+    def native(x):
+        raise __import__("pyvc.replay", fromlist=["OutsideHarness"]).OutsideHarness()
+
+    def raises_SpiNNakerBootError(only_if_needed, g_silent, g_is_spinnaker, _trace):
+        return only_if_needed and not g_silent and not g_is_spinnaker and all(t[0] != "boot" for t in _trace)
+
+    def ensures_asked_first_if_wanted_then_booted_with_the_given_options_into_a_new_dictionary(self, self_post, only_if_needed, g_silent, g_is_spinnaker,
+                                                                                                  g_led0, result, _trace):
+        n_ask = 2 if only_if_needed else 0
+        left_alone = only_if_needed and not g_silent
+        return (implies(only_if_needed, len(_trace) >= 2 and _trace[0] == ("controller_made", self.initial_host, ("n_tries", 1))
+                        and _trace[1] == ("asked_quickly", 255, 255, 0))
+                and implies(left_alone, g_is_spinnaker and result == False and len(_trace) == 2 and self_post.structs.ident == self.structs.ident)
+                and implies(not left_alone, result == True and len(_trace) == n_ask + 1
+                            and _trace[n_ask] == ("boot", self.initial_host, ("boot_port", self.boot_port), ("led0", g_led0))
+                            and self_post.structs.ident == 22))
